@@ -144,3 +144,375 @@ Proof.
       * intros Hp. destruct (Hph Hp) as (_ & _ & _ & Hf). discriminate Hf.
     + constructor; cbn; assumption.
 Qed.
+
+Lemma Inv_tick i o s s' : 0 < i -> Inv i o s -> tick i o s = Some s' -> Inv i o s'.
+Proof.
+  intros Hi HI Hs. destruct s as [n gg m tm tk c l fs st ar ta].
+  unfold tick in Hs; cbn [now mt g tmc tkc cch last flushes started armed ticker_at] in Hs.
+  inv_facts HI.
+  destruct gg as [|w| |v|v| |].
+  - (* GInit *)
+    injection Hs as <-. destruct (Hph eq_refl) as (-> & -> & -> & Hf).
+    constructor; cbn; easy.
+  - (* GComputed *)
+    destruct (Hph eq_refl) as (-> & -> & -> & Hf).
+    destruct (Z.leb_spec (n + w) n) as [HD|HD]; injection Hs as <-.
+    + constructor; cbn; try easy.
+      intros v Hv. destruct tm as [x|]; cbn in Hv; injection Hv as <-; [apply Htmc; reflexivity|lia].
+    + constructor; cbn; easy.
+  - (* GWaitTimer *)
+    destruct tm as [v|]; [|discriminate]. injection Hs as <-.
+    destruct (Hph eq_refl) as (-> & -> & -> & Hf).
+    constructor; cbn; try easy.
+    apply Htmc; reflexivity.
+  - (* GGotTimer: NewTicker *)
+    destruct (Z.leb_spec i 0) as [|_]; [lia|]. injection Hs as <-.
+    destruct (Hph eq_refl) as (-> & -> & -> & Hf).
+    constructor; cbn; try easy; try lia.
+    unfold chain; cbn. rewrite idx_succ by exact Hi.
+    pose proof (idx_mono i o v n Hi Hg). lia.
+  - (* GSending: sendTick *)
+    injection Hs as <-.
+    destruct (round_tick_aligned v i o Hi) as [Hb Hr].
+    constructor; cbn; try easy.
+    + unfold chain in *; cbn in *.
+      destruct c as [x|]; cbn.
+      * destruct fs as [|f fs], tk as [y|], m as [|D|N]; cbn in *; lia.
+      * destruct fs as [|f fs]; cbn in *; rewrite idx_round_tick by exact Hi.
+        all: destruct tk as [y|], m as [|D|N]; cbn in *; lia.
+    + intros x Hx. destruct c as [y|]; cbn in Hx; injection Hx as <-; [apply Hcch; reflexivity|].
+      split; [exact Hb|lia].
+  - (* GWaitTicker *)
+    destruct tk as [v|]; [|discriminate]. injection Hs as <-.
+    constructor; cbn; try easy.
+    apply Htkc; reflexivity.
+  - discriminate.
+Qed.
+
+Lemma Inv_consume i o s s' : 0 < i -> Inv i o s -> consume s = Some s' -> Inv i o s'.
+Proof.
+  intros Hi HI Hs. destruct s as [n gg m tm tk c l fs st ar ta].
+  unfold consume in Hs; cbn [now mt g tmc tkc cch last flushes started armed ticker_at] in Hs.
+  inv_facts HI.
+  destruct c as [t|]; [|discriminate]. injection Hs as <-.
+  destruct (Hcch t eq_refl) as [Hb Hle].
+  assert (Hgg : phase1 gg = false) by (destruct (phase1 gg) eqn:E; [destruct (Hph eq_refl) as (? & _); discriminate|reflexivity]).
+  constructor; cbn; try easy.
+  - unfold chain in *; cbn in *.
+    destruct fs as [|f fs], tk as [y|], m as [|D|N]; destruct gg; cbn in *; lia.
+  - repeat split; try assumption.
+    destruct fs as [|p fs]; [exact I|].
+    destruct Hfl as (Hbp & _). split; [|subst l; reflexivity].
+    apply (boundary_lt i o); try assumption.
+    unfold chain in Hchain; cbn in Hchain. lia.
+  - congruence.
+Qed.
+
+Lemma Inv_step i o s l s' : 0 < i -> Inv i o s -> step i o s l = Some s' -> Inv i o s'.
+Proof.
+  intros Hi HI Hs. destruct l; cbn [step] in Hs.
+  - eapply Inv_advance; eassumption.
+  - eapply Inv_tick; eassumption.
+  - eapply Inv_consume; eassumption.
+Qed.
+
+Theorem Inv_run i o start wall0 ls s :
+  0 < i -> run (step i o) (init start wall0) ls = Some s -> Inv i o s.
+Proof.
+  intros Hi Hr.
+  apply (invariant_run (step i o) (Inv i o)) with (ls := ls) (s := init start wall0); [|apply Inv_init|exact Hr].
+  intros s0 l s1 H0 H1; eapply Inv_step; eassumption.
+Qed.
+
+(* ---------------------------------------------------------------------------------------- *)
+(* Consequences for the flush history *)
+
+Lemma fl_ok_tail i o f r : fl_ok i o (f :: r) -> fl_ok i o r.
+Proof. intros (_ & _ & _ & H); exact H. Qed.
+
+Lemma fl_ok_all i o fs :
+  fl_ok i o fs -> forall f, In f fs -> on_boundary i o (f_tick f) /\ f_tick f <= f_at f.
+Proof.
+  induction fs as [|f r IH]; intros H x Hx; [destruct Hx|].
+  destruct Hx as [<-|Hx]; [destruct H as (? & ? & _); split; assumption|].
+  apply IH; [eapply fl_ok_tail; exact H|exact Hx].
+Qed.
+
+Lemma fl_ok_adjacent i o a f p b :
+  fl_ok i o (a ++ f :: p :: b) ->
+  on_boundary i o (f_tick p) /\ on_boundary i o (f_tick f) /\ f_tick p < f_tick f
+  /\ f_delta f = time_sub (f_tick f) (f_tick p).
+Proof.
+  induction a as [|x a IH]; intros H.
+  - destruct H as (Hf & _ & (Hlt & Hd) & (Hp & _)). repeat split; assumption.
+  - apply IH. eapply fl_ok_tail; exact H.
+Qed.
+
+Lemma fl_ok_decreasing i o fs :
+  fl_ok i o fs -> StronglySorted (fun a b => b < a) (map f_tick fs).
+Proof.
+  induction fs as [|f r IH]; intros H; cbn [map]; [constructor|].
+  pose proof (IH (fl_ok_tail _ _ _ _ H)) as Hr.
+  constructor; [exact Hr|].
+  destruct r as [|p r']; [constructor|].
+  destruct H as (_ & _ & (Hlt & _) & _). cbn [map] in *.
+  apply StronglySorted_inv in Hr. destruct Hr as [_ Hall].
+  constructor; [exact Hlt|].
+  eapply Forall_impl; [|exact Hall]. cbn; intros; lia.
+Qed.
+
+Lemma SSorted_snoc (R : Z -> Z -> Prop) l a :
+  StronglySorted R l -> Forall (fun x => R x a) l -> StronglySorted R (l ++ [a]).
+Proof.
+  induction l as [|x l IH]; intros Hs Hf; cbn.
+  - repeat constructor.
+  - apply StronglySorted_inv in Hs. destruct Hs as [Hs Hx].
+    apply Forall_cons_iff in Hf. destruct Hf as [Hxa Hf].
+    constructor; [apply IH; assumption|].
+    apply Forall_app; split; [exact Hx|constructor; [exact Hxa|constructor]].
+Qed.
+
+Lemma SSorted_rev l : StronglySorted (fun a b => b < a) l -> StronglySorted Z.lt (rev l).
+Proof.
+  induction l as [|x l IH]; intros Hs; cbn; [constructor|].
+  apply StronglySorted_inv in Hs. destruct Hs as [Hs Hx].
+  apply SSorted_snoc; [apply IH; exact Hs|].
+  apply Forall_rev. exact Hx.
+Qed.
+
+Lemma fl_ok_increasing i o fs : fl_ok i o fs -> StronglySorted Z.lt (map f_tick (rev fs)).
+Proof. intros H. rewrite map_rev. apply SSorted_rev. eapply fl_ok_decreasing; exact H. Qed.
+
+(* ---------------------------------------------------------------------------------------- *)
+(* The theorems about every label sequence *)
+
+Section Runs.
+  Variables (i o start wall0 : Z) (ls : list label) (s : state).
+  Hypothesis Hi : 0 < i.
+  Hypothesis Hrun : run (step i o) (init start wall0) ls = Some s.
+
+  Lemma run_flush_aligned :
+    forall f, In f (flushes s) -> (f_tick f - o) mod i = 0 /\ f_tick f <= f_at f.
+  Proof.
+    intros f Hf. pose proof (Inv_run i o start wall0 ls s Hi Hrun) as HI.
+    exact (fl_ok_all i o _ (inv_flushes _ _ _ HI) f Hf).
+  Qed.
+
+  Lemma run_strictly_increasing : StronglySorted Z.lt (flush_times s).
+  Proof.
+    pose proof (Inv_run i o start wall0 ls s Hi Hrun) as HI.
+    unfold flush_times. eapply fl_ok_increasing. exact (inv_flushes _ _ _ HI).
+  Qed.
+
+  Lemma run_delta_multiple :
+    forall pre p f post, rev (flushes s) = pre ++ p :: f :: post ->
+      exists k, 0 < k /\ f_tick f = f_tick p + k * i
+                /\ f_delta f = sat_dur (k * i) /\ (k * i <= max_dur -> f_delta f = k * i).
+  Proof.
+    intros pre p f post Hrev.
+    pose proof (Inv_run i o start wall0 ls s Hi Hrun) as HI.
+    pose proof (inv_flushes _ _ _ HI) as Hfl.
+    assert (Hfs : flushes s = rev post ++ f :: p :: rev pre).
+    { rewrite <- (rev_involutive (flushes s)), Hrev, rev_app_distr. cbn. rewrite <- !app_assoc. reflexivity. }
+    rewrite Hfs in Hfl. destruct (fl_ok_adjacent _ _ _ _ _ _ Hfl) as (Hp & Hf & Hlt & Hd).
+    pose proof (boundary_diff i o _ _ Hi Hp Hf) as Hdiff.
+    pose proof (boundary_idx_lt i o _ _ Hi Hp Hf Hlt) as Hk.
+    exists (idx i o (f_tick f) - idx i o (f_tick p)).
+    split; [lia|]. split; [lia|].
+    unfold time_sub in Hd. rewrite Hdiff in Hd. split; [exact Hd|].
+    intros Hmax. rewrite Hd. apply sat_dur_id. unfold min_dur, max_dur in *. nia.
+  Qed.
+End Runs.
+
+(* ---------------------------------------------------------------------------------------- *)
+(* The first flush.  [started s] is the clock reading st that start obtained from clck.Now(),
+   [armed s] the clock reading a at its clck.NewTimer call and the wait it passed.  The first
+   value ever put on C is the rounded deadline of that timer. *)
+
+Definition first_ok (i o : Z) (s : state) (D0 : Z) : Prop :=
+  (forall D, mt s = MTimer D -> D = D0)
+  /\ (forall v, tmc s = Some v -> v = D0)
+  /\ (forall v, g s = GGotTimer v -> v = D0)
+  /\ match flushes s with
+     | [] => match cch s with
+             | Some x => x = round_tick D0 i o
+             | None => match g s with GSending v => v = D0 | GWaitTicker => False | _ => True end
+             end
+     | _ :: _ => forall f, hd_error (rev (flushes s)) = Some f -> f_tick f = round_tick D0 i o
+     end.
+
+Definition Inv2 (i o : Z) (s : state) : Prop :=
+  match g s with
+  | GInit => tmc s = None /\ mt s = MNone
+  | GComputed w =>
+      tmc s = None /\ mt s = MNone
+      /\ exists st, started s = Some st /\ w = initial_wait st i o /\ st <= now s
+  | _ => exists st a, started s = Some st /\ armed s = Some (a, initial_wait st i o) /\ st <= a
+                      /\ first_ok i o s (a + initial_wait st i o)
+  end.
+
+Lemma hd_error_rev_snoc {A} (y : A) (l l' : list A) :
+  hd_error (rev (y :: l) ++ l') = hd_error (rev (y :: l)).
+Proof.
+  cbn [rev]. destruct (rev l ++ [y]) as [|z r] eqn:E; [|reflexivity].
+  apply app_eq_nil in E. destruct E as [_ E]; discriminate.
+Qed.
+
+Lemma Inv2_step i o s l s' :
+  0 < i <= max_dur -> Inv i o s -> Inv2 i o s -> step i o s l = Some s' -> Inv2 i o s'.
+Proof.
+  intros Hi HI H2 Hs. destruct s as [n gg m tm tk c l0 fs st ar ta].
+  pose proof (inv_phase _ _ _ HI) as Hph. cbn in Hph.
+  unfold Inv2, first_ok in *; cbn [now mt g tmc tkc cch last flushes started armed ticker_at] in *.
+  destruct l as [d| |]; cbn [step] in Hs.
+  - (* Advance *)
+    unfold advance in Hs; cbn [now mt g tmc tkc cch last flushes started armed ticker_at] in Hs.
+    destruct (Z.ltb_spec d 0) as [|Hd]; [discriminate|].
+    destruct gg as [|w| |v|v| |].
+    1: { destruct H2 as (-> & ->). injection Hs as <-. cbn. auto. }
+    1: { destruct H2 as (-> & -> & x & ? & ? & ?). injection Hs as <-. cbn.
+         repeat split; trivial. exists x. repeat split; trivial. lia. }
+    all: destruct H2 as (x & a & H1 & H3 & H4 & HmT & Htm & Hgv & Hfirst).
+    all: destruct m as [|D|N];
+      [ injection Hs as <-
+      | destruct (D <=? n + d); injection Hs as <-
+      | destruct (N <=? n + d); injection Hs as <- ].
+    all: cbn; exists x, a; repeat split; trivial; try discriminate.
+    all: try (intros v0 Hv0; destruct tm; cbn in Hv0; injection Hv0 as <-; auto; fail).
+  - (* Tick *)
+    unfold tick in Hs; cbn [now mt g tmc tkc cch last flushes started armed ticker_at] in Hs.
+    destruct gg as [|w| |v|v| |].
+    + destruct H2 as (-> & ->). injection Hs as <-. cbn. repeat split; trivial.
+      exists n. repeat split; trivial. lia.
+    + destruct H2 as (-> & -> & x & -> & -> & Hle).
+      destruct (Hph eq_refl) as (-> & -> & -> & _).
+      destruct (initial_wait_spec x i o Hi) as [[Hw _] _].
+      destruct (Z.leb_spec (n + initial_wait x i o) n) as [HD|HD]; [lia|]. injection Hs as <-.
+      cbn. exists x, n. repeat split; trivial; try discriminate. intros D HD0; injection HD0 as <-; reflexivity.
+    + destruct H2 as (x & a & H1 & H3 & H4 & HmT & Htm & Hgv & Hfirst).
+      destruct tm as [v|]; [|discriminate]. injection Hs as <-.
+      destruct (Hph eq_refl) as (-> & -> & -> & _).
+      cbn. exists x, a. repeat split; trivial; try discriminate.
+      intros v0 Hv0; injection Hv0 as <-. apply Htm; reflexivity.
+    + destruct H2 as (x & a & H1 & H3 & H4 & HmT & Htm & Hgv & Hfirst).
+      destruct (Z.leb_spec i 0) as [|_]; [lia|]. injection Hs as <-.
+      destruct (Hph eq_refl) as (-> & -> & -> & _).
+      cbn. exists x, a. repeat split; trivial; try discriminate. apply Hgv; reflexivity.
+    + destruct H2 as (x & a & H1 & H3 & H4 & HmT & Htm & Hgv & Hfirst).
+      injection Hs as <-. cbn. exists x, a. repeat split; trivial; try discriminate.
+      destruct fs as [|f fs]; [|exact Hfirst].
+      destruct c as [y|]; cbn; [exact Hfirst|]. rewrite Hfirst; reflexivity.
+    + destruct H2 as (x & a & H1 & H3 & H4 & HmT & Htm & Hgv & Hfirst).
+      destruct tk as [v|]; [|discriminate]. injection Hs as <-.
+      cbn. exists x, a. repeat split; trivial; try discriminate.
+      destruct fs as [|f fs]; [|exact Hfirst].
+      destruct c as [y|]; [exact Hfirst|destruct Hfirst].
+    + discriminate.
+  - (* Consume *)
+    unfold consume in Hs; cbn [now mt g tmc tkc cch last flushes started armed ticker_at] in Hs.
+    destruct c as [t|]; [|discriminate]. injection Hs as <-.
+    destruct gg as [|w| |v|v| |]; try (destruct (Hph eq_refl) as (? & _); discriminate).
+    all: destruct H2 as (x & a & H1 & H3 & H4 & HmT & Htm & Hgv & Hfirst).
+    all: cbn; exists x, a; repeat split; trivial.
+    all: destruct fs as [|p fs];
+      [ intros f Hf; cbn in Hf; injection Hf as <-; cbn; exact Hfirst
+      | intros f Hf; rewrite hd_error_rev_snoc in Hf; apply Hfirst; exact Hf ].
+Qed.
+
+Lemma Inv2_init i o start wall0 : Inv2 i o (init start wall0).
+Proof. split; reflexivity. Qed.
+
+Lemma Inv12_run i o start wall0 ls s :
+  0 < i <= max_dur -> run (step i o) (init start wall0) ls = Some s -> Inv i o s /\ Inv2 i o s.
+Proof.
+  intros Hi Hr.
+  apply (invariant_run (step i o) (fun s => Inv i o s /\ Inv2 i o s)) with (ls := ls) (s := init start wall0);
+    [|split; [apply Inv_init|apply Inv2_init]|exact Hr].
+  intros s0 l s1 [H0 H0'] H1; split.
+  - eapply Inv_step; [lia|eassumption..].
+  - eapply Inv2_step; eassumption.
+Qed.
+
+Lemma run_first_flush i o start wall0 ls s :
+  0 < i <= max_dur ->
+  run (step i o) (init start wall0) ls = Some s ->
+  forall t0 rest, flush_times s = t0 :: rest ->
+    exists st a, started s = Some st /\ armed s = Some (a, initial_wait st i o) /\ st <= a
+      /\ t0 = round_tick (a + initial_wait st i o) i o
+      /\ st < t0 <= a + i
+      /\ (a = st -> t0 = st + initial_wait st i o).
+Proof.
+  intros Hi Hr t0 rest Hft.
+  destruct (Inv12_run i o start wall0 ls s Hi Hr) as [HI H2].
+  assert (Hpos : 0 < i) by lia.
+  unfold flush_times in Hft.
+  destruct (rev (flushes s)) as [|f0 r0] eqn:Erev; [discriminate|].
+  cbn [map] in Hft. injection Hft as Ht0 _.
+  assert (Hne : exists f fs, flushes s = f :: fs).
+  { destruct (flushes s) as [|f fs]; [discriminate|eauto]. }
+  destruct Hne as (f & fs & Efs).
+  assert (Hp : phase1 (g s) = false).
+  { destruct (phase1 (g s)) eqn:E; [|reflexivity].
+    destruct (inv_phase _ _ _ HI E) as (_ & _ & Hnil & _). congruence. }
+  assert (Hex : exists st a, started s = Some st /\ armed s = Some (a, initial_wait st i o) /\ st <= a
+                             /\ first_ok i o s (a + initial_wait st i o)).
+  { unfold Inv2 in H2. destruct (g s); try discriminate Hp; exact H2. }
+  destruct Hex as (st & a & Hst & Har & Hle & _ & _ & _ & Hfirst).
+  rewrite Efs in Hfirst. rewrite <- Efs, Erev in Hfirst. specialize (Hfirst f0 eq_refl).
+  exists st, a. repeat split; try assumption; try congruence.
+  all: destruct (initial_wait_spec st i o Hi) as [[Hw1 Hw2] Hb];
+       set (w := initial_wait st i o) in *;
+       assert (Et0 : t0 = round_tick (a + w) i o) by congruence; clear Hfirst Ht0;
+       destruct (round_tick_aligned (a + w) i o Hpos) as [Hrb Hrr].
+  - (* st < t0 *)
+    apply on_boundary_iff in Hb; [|exact Hpos].
+    pose proof (idx_mono i o (st + w) (a + w) Hpos ltac:(lia)) as Hm.
+    rewrite round_tick_idx in Et0 by exact Hpos. nia.
+  - lia.
+  - intros ->. rewrite Et0. symmetry. apply round_tick_unique; [exact Hpos|exact Hb|lia].
+Qed.
+
+(* ---------------------------------------------------------------------------------------- *)
+(* Non-vacuity: the hypotheses of the theorems above hold on non-trivial runs *)
+
+(* interval 10, offset 23 (>= interval), start 1004.  The consumer is prompt once, then the
+   clock jumps over 3.5 intervals (one tick, 1023), a tick (1053) is dropped because nobody
+   read C, and the next delivered tick (1063) is 4 intervals after the previous one. *)
+Definition ex_labels : list label :=
+  [Tick; Tick; Advance 9; Tick; Tick; Tick; Consume;
+   Advance 35; Tick; Tick; Advance 10; Tick; Tick; Consume;
+   Advance 10; Tick; Tick; Consume].
+
+Example ex_run :
+  option_map (fun s => (map (fun f => (f_at f, f_tick f, f_delta f)) (rev (flushes s)), started s, armed s))
+             (run (step 10 23) (init 1004 777) ex_labels)
+  = Some ([(1013, 1013, 236); (1058, 1023, 10); (1068, 1063, 40)], Some 1004, Some (1004, 9)).
+Proof. vm_compute. reflexivity. Qed.
+
+(* interval 2^61 ns: two consecutive delivered ticks 5 intervals apart exceed the largest
+   Duration, and the interval handed to the aggregators is the saturated one *)
+Definition ex_big : Z := 2305843009213693952.
+Example ex_run_saturated :
+  option_map (fun s => map (fun f => (f_tick f, f_delta f)) (rev (flushes s)))
+             (run (step ex_big 5) (init (-3) 0)
+                  [Tick; Tick; Advance ex_big; Tick; Tick; Tick; Consume;
+                   Advance (5 * ex_big); Tick; Tick; Consume; Advance ex_big; Tick; Tick; Consume])
+  = Some [(5, 5); (ex_big + 5, ex_big); (6 * ex_big + 5, max_dur)].
+Proof. vm_compute. reflexivity. Qed.
+
+(* the clock moves between clck.Now() and clck.NewTimer(): the timer deadline 1035 is not a
+   boundary, the tick delivered is the boundary 1030 (> st = 1009, <= a + i = 1044) *)
+Example ex_run_late_arm :
+  option_map (fun s => (started s, armed s, flush_times s))
+             (run (step 10 0) (init 1009 0) [Tick; Advance 25; Tick; Advance 4; Tick; Tick; Tick; Consume])
+  = Some (Some 1009, Some (1034, 1), [1030]).
+Proof. vm_compute. reflexivity. Qed.
+
+(* start exactly on a boundary waits a whole interval; an instant before the zero time and an
+   offset beyond the interval *)
+Example ex_wait_on_boundary : initial_wait 1013 10 23 = 10.
+Proof. vm_compute; reflexivity. Qed.
+Example ex_wait_negative : initial_wait (-1) 7 100 = 3 /\ ((-1) + 3 - 100) mod 7 = 0.
+Proof. split; vm_compute; reflexivity. Qed.
+Example ex_round_negative : round_tick (-1) 7 100 = -5.
+Proof. vm_compute; reflexivity. Qed.
